@@ -19,7 +19,7 @@ VARIABLES phase,       \* "connecting" | "failed" | "auth" | "closing" | "hello"
           tried,       \* number of endpoints tried so far
           fired,       \* outcome delivered by the Deferred of connect(): "none" | "ok" | "fail"
           nfired,      \* how often it fired
-          call,        \* [Calls -> "new" | "out" | "lost" | "ok" | "timeout"]
+          call,        \* [Calls -> "new" | "out" | "lost" | "ok" | "timeout" | "cancelled"]
           timers,      \* calls with an armed deadline
           cb,          \* [Cbs -> "unreg" | "conn" | "explicit" | "intro" | "dropped"] where the callback is registered
           ran,         \* [Cbs -> number of times the callback ran]
@@ -66,15 +66,23 @@ IssueCall(k, withTimer) ==
     /\ timers' = IF withTimer THEN timers \cup {k} ELSE timers
     /\ UNCHANGED <<phase, idx, tried, fired, nfired, cb, ran, late>>
 
-ReplyCall(k) ==
+(* the caller cancels the Deferred of an outstanding call: it fires at once (CancelledError); the connection keeps
+   its bookkeeping - and the armed deadline - until a reply, the deadline or the loss of the connection clears it,
+   none of which may reach the caller a second time *)
+CancelCall(k) ==
     /\ phase = "ready" /\ call[k] = "out"
-    /\ call' = [call EXCEPT ![k] = "ok"] /\ timers' = timers \ {k}
+    /\ call' = [call EXCEPT ![k] = "cancelled"]
+    /\ UNCHANGED <<phase, idx, tried, fired, nfired, timers, cb, ran, late>>
+
+ReplyCall(k) ==
+    /\ phase = "ready" /\ call[k] \in {"out", "cancelled"}
+    /\ call' = [call EXCEPT ![k] = IF @ = "out" THEN "ok" ELSE @] /\ timers' = timers \ {k}
     /\ UNCHANGED <<phase, idx, tried, fired, nfired, cb, ran, late>>
 
 (* the deadline of call k passes before any reply *)
 ExpireCall(k) ==
-    /\ phase = "ready" /\ call[k] = "out" /\ k \in timers
-    /\ call' = [call EXCEPT ![k] = "timeout"] /\ timers' = timers \ {k}
+    /\ phase = "ready" /\ call[k] \in {"out", "cancelled"} /\ k \in timers
+    /\ call' = [call EXCEPT ![k] = IF @ = "out" THEN "timeout" ELSE @] /\ timers' = timers \ {k}
     /\ UNCHANGED <<phase, idx, tried, fired, nfired, cb, ran, late>>
 
 (* register callback x: on the connection, or on a proxy obtained with explicit interfaces, or on an
@@ -108,7 +116,7 @@ Quiet ==
 Next ==
     \/ (\E why \in {"refused", "dns", "timeout"} : EpFail(why)) \/ EpOk \/ AuthOk \/ AuthRefused \/ HelloOk \/ HelloErr \/ Close \/ Quiet
     \/ \E k \in Calls, t \in BOOLEAN : IssueCall(k, t)
-    \/ \E k \in Calls : ReplyCall(k) \/ ExpireCall(k)
+    \/ \E k \in Calls : ReplyCall(k) \/ ExpireCall(k) \/ CancelCall(k)
     \/ \E x \in Cbs, w \in {"conn", "explicit", "intro"} : Register(x, w)
     \/ \E x \in Cbs : DropProxy(x)
 
